@@ -94,6 +94,16 @@ int remove(const char* p) { static auto r = real<int (*)(const char*)>("remove")
 int unlink(const char* p) { static auto r = real<int (*)(const char*)>("unlink"); if (!g_ip_active) return r(p); if (pre("remove", p)) return -1; int rv = r(p); post("remove", p, -1); return rv; }
 int rename(const char* a, const char* b) { static auto r = real<int (*)(const char*, const char*)>("rename"); if (!g_ip_active) return r(a, b); if (pre("rename", b)) return -1; int rv = r(a, b); post("rename", b, -1); return rv; }
 int mkdir(const char* p, mode_t m) { static auto r = real<int (*)(const char*, mode_t)>("mkdir"); if (!g_ip_active) return r(p, m); if (pre("mkdir", p)) return -1; int rv = r(p, m); post("mkdir", p, -1); return rv; }
+// record locks: never counted or failed (so the FS-operation numbering of count/fail/crash runs is unchanged); in DELAY mode a PRNG sleep
+// before the lock is requested widens every window in which code touches a shared file before holding its lock (C15)
+static void lock_delay(int fd, int cmd) {
+	if (!g_ip_active || G.mode != DELAY || reent || !(cmd == F_SETLKW || cmd == F_SETLK)) return;
+	std::string p = fdpath(fd); if (!under_root(p)) return;
+	std::lock_guard<std::mutex> lk(G.mu); uint64_t r = xs(G.seed);
+	if ((double)(r & 0xFFFF) / 65536.0 < G.p) { reent++; usleep((r >> 20) % (G.maxus + 1)); reent--; }
+}
+int fcntl(int fd, int cmd, ...) { static auto r = real<int (*)(int, int, ...)>("fcntl"); va_list a; va_start(a, cmd); void* arg = va_arg(a, void*); va_end(a); lock_delay(fd, cmd); return r(fd, cmd, arg); }
+int fcntl64(int fd, int cmd, ...) { static auto r = real<int (*)(int, int, ...)>("fcntl64"); va_list a; va_start(a, cmd); void* arg = va_arg(a, void*); va_end(a); lock_delay(fd, cmd); return r ? r(fd, cmd, arg) : -1; }
 int rmdir(const char* p) { static auto r = real<int (*)(const char*)>("rmdir"); if (!g_ip_active) return r(p); if (pre("rmdir", p)) return -1; int rv = r(p); post("rmdir", p, -1); return rv; }
 
 // ---- termination: a library must never end the host process
